@@ -114,8 +114,17 @@ class Text(Part):
                 parts.insert(0, ["lit", draw(st.sampled_from(
                     ["<", "<p>", "</x>", "<!--", "<?xml version='1.0'?>",
                      '<p tal:content="a">', "<x ", "<![CDATA["]))])
+            form = "plain"
+            if cls == "file":
+                # the file may carry its own encoding marker; the OUTPUT
+                # encoding is the template's 'encoding' option all the same
+                form = draw(st.sampled_from(["plain", "plain", "bom",
+                                             "xmldecl", "utf16"]))
+                if form == "xmldecl":
+                    parts.insert(0, ["lit", "<?xml version='1.0' "
+                                     "encoding='utf-8'?>\n"])
             return {"cls": cls, "encoding": enc, "parts": parts,
-                    "bindings": vals}
+                    "bindings": vals, "file_form": form}
         return case()
 
     @staticmethod
@@ -174,6 +183,8 @@ class Text(Part):
         if case["cls"] != "str":
             yield "file"
         yield "cls_" + case["cls"]
+        if case.get("file_form", "plain") != "plain":
+            yield "file_" + case["file_form"]
 
     def sample(self, case):
         return {"source": self.source(case), "bindings": case["bindings"],
@@ -199,8 +210,16 @@ class Text(Part):
         else:
             tmp = getattr(self, "tmp", None) or tempfile.gettempdir()
             path = os.path.join(tmp, "t%d.txt" % (abs(hash(src)) % 10**9))
+            import codecs
+            form = case.get("file_form", "plain")
+            if form == "bom":
+                data = codecs.BOM_UTF8 + src.encode("utf-8")
+            elif form == "utf16":
+                data = codecs.BOM_UTF16_LE + src.encode("utf-16-le")
+            else:
+                data = src.encode("utf-8")
             with open(path, "wb") as f:
-                f.write(src.encode("utf-8"))
+                f.write(data)
             kw = {} if enc is None else {"encoding": enc}
             o = run(PageTextTemplateFile, path, **kw)
         if not o.ok:
